@@ -141,4 +141,9 @@ def has_sym(v, depth=0):
         return any(has_sym(x, depth + 1) for x in v)
     if isinstance(v, dict):
         return any(has_sym(x, depth + 1) for x in v.values()) or any(has_sym(x, depth + 1) for x in v.keys())
+    # real repository objects used as containers (e.g. MichelsonStack.items) may hold symbolic records
+    if depth < 3 and getattr(type(v), '__module__', '').startswith('pytezos') and not isinstance(v, type):
+        d = getattr(v, '__dict__', None)
+        if d:
+            return any(has_sym(x, depth + 2) for x in d.values())
     return False
